@@ -23,10 +23,7 @@ def twin_states(MX, rng, hist, wind):
         # ground-relative body velocity: subtract the wind expressed in body axes
         wb = MX.helpers.quat_trans(qn, np.array(wind, dtype=float))
         st2["velocity"] = (np.array(st["velocity"]) - wb).tolist()
-        if st.get("angular_rate_frame", "body") != "body":
-            # stability/wind rate frames are defined by the *given* velocity vector: keep them in body axes instead
-            st.pop("angular_rate_frame", None)
-            st2.pop("angular_rate_frame", None)
+        # (rates given in stability / wind axes refer to the wind-relative velocity in both scenes)
     return st, st2
 
 
